@@ -33,6 +33,16 @@ def value_alphabet(img, fields, name, orig, width):
             vals.add(int.from_bytes(img[fields[n2][0]:fields[n2][0] + 8], "little") + 2)
     if role == "type":
         vals.update(range(0, 16))
+    # length fields: values that put the end of the record they describe a few bytes before / exactly at / just behind the end of the table it lives in
+    # (the bytes that follow the variable part - e.g. the xattr index of an extended symlink - are then read across the end of the table)
+    if role in ("target_size", "file_size", "index_count", "name_size", "size", "count") and "super.bytes_used" in fields:
+        off = fields[name][0]
+        ends = sorted(int.from_bytes(img[fields[n2][0]:fields[n2][0] + 8], "little") for n2 in
+                      ("super.id_table", "super.xattr_table", "super.inode_table", "super.dir_table", "super.frag_table", "super.export_table", "super.bytes_used") if n2 in fields)
+        nxt = [e for e in ends if e > off and e != (1 << 64) - 1]
+        if nxt:
+            rem = nxt[0] - (off + width)
+            vals.update(rem + d for d in range(-9, 3) if rem + d >= 0)
     out = sorted(v & mx for v in vals if v >= 0)
     return [v for v in dict.fromkeys(out) if v != orig]
 
